@@ -7,6 +7,8 @@ CONSTANTS
   InsertNewTagStoresChars = FALSE
   NonAtomicRead = FALSE
   NonAtomicQread = FALSE
+  ReverseViewCached = FALSE
+  AliasBoundToFirstObject = FALSE
   ShallowCopy = FALSE
   SrcSteps = 0
   Emit = TRUE
@@ -16,5 +18,6 @@ INVARIANT Inverse
 INVARIANT InverseWeak
 INVARIANT Refines
 INVARIANT QueriesAgree
+INVARIANT AliasQueriesAgree
 INVARIANT FacetFormsAgree
 INVARIANT EmitState
